@@ -137,6 +137,26 @@ def impl_find_line(s, names, tol=0, skip=()):
         return 'FIND-RAISED ' + classify_exc(e) + ' ' + type(e).__name__
 
 
+def impl_find_from(parsed, names):
+    """impl_find_line for an already parsed document (parsed = result of impl_parse)."""
+    res, soup, exc = parsed
+    if soup is None:
+        return res
+    from TexSoup.data import TexNode
+    q = names if isinstance(names, str) else list(names)
+
+    def sers(xs):
+        return ','.join(enc(str(x)) for x in xs)
+
+    try:
+        nodes = [d for d in soup.descendants if isinstance(d, TexNode)]
+        return 'FIND ' + ' # '.join([sers(soup.find_all(q))] + [sers(n.find_all(q)) for n in nodes])
+    except RecursionError:
+        raise
+    except Exception as e:
+        return 'FIND-RAISED ' + classify_exc(e) + ' ' + type(e).__name__
+
+
 def found(soup, name):
     """str of every node found by find_all(name) from the root."""
     return [str(x) for x in soup.find_all(name)]
@@ -232,7 +252,7 @@ def eval_docs(job):
     with_model = job.get('model', True)
     st = Stats()
     out = {'n': 0, 'corr_cases': 0, 'corr_fail': [], 'orc_fail': [], 'hashes': set(), 'sample': None,
-           'stats': st, 'ast_of_failure': []}
+           'stats': st}
     docs = []
     for i in range(job['n']):
         src, ast, extra = gen_fn(rng, i, job)
@@ -263,8 +283,11 @@ def eval_docs(job):
                     d = {'key': key, 'what': what, 'input': src, 'skip': list(skip)}
                     d.update(info or {})
                     out['orc_fail'].append(d)
-                    out['ast_of_failure'].append(ast)
                 st.c['oracle_failure:' + key] += 1
+        if with_model and job.get('finds'):
+            for name in job['finds'](src, ast, extra):
+                reqs.append(find_req(src, name, 0, skip))
+                want.append((src, 'find %r' % (name,), skip, impl_find_from(parsed0, name)))
         if out['sample'] is None and len(src) > 20:
             out['sample'] = {'input': src[:300], 'result': parsed0[0][:200]}
     if with_model and reqs:
@@ -272,7 +295,9 @@ def eval_docs(job):
         for (src, tol, skip, w), g in zip(want, got):
             out['corr_cases'] += 1
             if w != g and len(out['corr_fail']) < 40:
-                out['corr_fail'].append({'key': 'parse-mismatch', 'what': 'model and implementation differ (tol %d)' % tol,
+                isfind = isinstance(tol, str)
+                out['corr_fail'].append({'key': 'find-mismatch' if isfind else 'parse-mismatch',
+                                         'what': 'model and implementation differ (%s)' % (tol if isfind else 'tol %d' % tol),
                                          'input': src, 'skip': list(skip), 'tol': tol, 'impl': w[:300], 'model': g[:300]})
     return out
 
